@@ -205,4 +205,60 @@ def selfies_to_encoding (len_selfies : (Str → Nat)) (split_selfies : (Str → 
       else
         Except.ok (Sum.inr (Sum.inr (integer_encoded, one_hot_encoded)))
 
+/-- `len_selfies` of selfies/utils/selfies_utils.py (line 4), hand copy. -/
+def len_selfies (selfies : Str) : Py Int := do
+  Except.ok ((((PyRt.strCount1 selfies '[') : Nat) : Int) + (((PyRt.strCount1 selfies '.') : Nat) : Int))
+
+/-- `get_alphabet_from_selfies` of selfies/utils/selfies_utils.py (line 49), hand copy. -/
+def get_alphabet_from_selfies (split_selfies : (Str → ((List Str) × (Option PyExc)))) (selfies_iter : (List Str)) : Py (List Str) := do
+  let alphabet : (List Str) := []
+  let alphabet : (List Str) ← List.foldlM (m := Py) (fun (alphabet : (List Str)) (s : Str) => do
+      let t_1 : ((List Str) × (Option PyExc)) := (split_selfies s)
+      let alphabet : (List Str) := List.foldl (fun (alphabet : (List Str)) (symbol : Str) =>
+          let alphabet : (List Str) := (PyRt.setAdd alphabet symbol)
+          alphabet
+          ) alphabet t_1.1
+      let _ ← PyRt.genEnd t_1.2
+      Except.ok alphabet
+      ) alphabet selfies_iter
+  let alphabet : (List Str) := (PyRt.setDiscard alphabet (['.'] : Str))
+  Except.ok alphabet
+
+/-- the `while` loop of `split_selfies` (line 35): structural recursion on a fuel argument -/
+def split_selfies_while1 (selfies : Str) : Nat → (Int × (List Str)) → Except (PyExc × (List Str)) (Int × (List Str))
+  | 0, py_st => Except.error (PyExc.NonTermination, py_st.2)
+  | py_fuel + 1, py_st => do
+    let left_idx : Int := py_st.1
+    let py_out : (List Str) := py_st.2
+    if ((decide ((0 : Int) ≤ left_idx)) && (decide (left_idx < (((List.length selfies) : Nat) : Int)))) then
+      let right_idx : Int := (PyRt.strFind1 selfies ']' (left_idx + (1 : Int)))
+      let py_out : (List Str) ← (if ((decide (right_idx = (-(1 : Int))))) then do
+          Except.error (PyExc.ValueError, py_out)
+        else do
+          Except.ok py_out)
+      let next_symbol : Str := (PyRt.strSlice selfies left_idx (right_idx + (1 : Int)))
+      let py_out : (List Str) := (py_out ++ [next_symbol])
+      let left_idx : Int := (right_idx + (1 : Int))
+      let py_st_2 : (Int × (List Str)) ← (if ((decide ((PyRt.strSlice selfies left_idx (left_idx + (1 : Int))) = (['.'] : Str)))) then do
+          let py_out : (List Str) := (py_out ++ [(['.'] : Str)])
+          let left_idx : Int := (left_idx + (1 : Int))
+          Except.ok (left_idx, py_out)
+        else do
+          Except.ok (left_idx, py_out))
+      let left_idx : Int := py_st_2.1
+      let py_out : (List Str) := py_st_2.2
+      split_selfies_while1 selfies py_fuel (left_idx, py_out)
+    else
+      Except.ok (left_idx, py_out)
+
+/-- `split_selfies` of selfies/utils/selfies_utils.py (line 20), hand copy. -/
+def split_selfies (selfies : Str) : ((List Str) × (Option PyExc)) :=
+  PyRt.genRun (do
+    let py_out : (List Str) := []
+    let left_idx : Int := (PyRt.strFind1 selfies '[' (0 : Int))
+    let py_st_w1 : (Int × (List Str)) ← split_selfies_while1 selfies (Int.toNat ((((List.length selfies) : Nat) : Int) - left_idx) + 1) (left_idx, py_out)
+    let left_idx : Int := py_st_w1.1
+    let py_out : (List Str) := py_st_w1.2
+    Except.ok py_out)
+
 end SV.Gen.Fallback
